@@ -17,10 +17,10 @@ a list of lines that is empty is written `E`; `N` stands for Python's `None`.
      `ok` = `AddIgnoresOK`; `EXC` instead of everything if a diagnostic lies outside the file.
 
 `R|<lines>|<first>|<astLast>|<stmtEnd>`
-  → `range=<a,b,…> spec=<a,b,…> D=<stmtRange | ->`
+  → `range=<a,b,…> spec=<a,b,…> D=<stmtRangeOverrun | ->`
 
 `X|<lines>|<first>|<stmtEnd>|<adds>|<sharesLine><soleInBlock><isElif><pctRisky>`   (four 0/1 digits)
-  → `D=<classes | ->`   (stmtRange, sharedLine, emptyBlock, elifHeader, fstringConversion)
+  → `D=<classes | ->`   (stmtRangeOverrun, sharedLine, emptyBlock, elifHeader, fstringConversion)
 -/
 open Pya.C16
 open Pya.C11 (Line)
@@ -123,8 +123,7 @@ def handle (line : String) : String :=
       if !(raw.all fun d => decide (1 ≤ d.line) && decide (d.line ≤ (pyLines ls).length) && decide (d.line ≤ ls.length)) then "EXC"
       else
         let d := classes [(D16_twoCodesOneLine raw, "twoCodesOneLine"), (D16_ignoreAboveLineOne ls raw, "ignoreAboveLineOne"),
-                          (D16_insideString ls raw, "insideString"), (D16_afterBackslash ls raw, "afterBackslash"),
-                          (D16_splitlinesMismatch ls, "splitlinesMismatch")]
+                          (D16_insideString ls raw, "insideString"), (D16_afterBackslash ls raw, "afterBackslash")]
         let (stN, link, rs) := runRounds rounds st true []
         let out := match mainLoop limit (limit + 2) 0 st with
           | .done _ n => s!"done:{n}"
@@ -138,7 +137,7 @@ def handle (line : String) : String :=
     | some ls, some first, some astLast, some stmtEnd =>
       if first = 0 || first > ls.length then "EXC:IndexError"
       else
-        let d := if D16_stmtRange ls first stmtEnd then "stmtRange" else "-"
+        let d := if D16_stmtRangeOverrun ls first stmtEnd then "stmtRangeOverrun" else "-"
         s!"range={showNats (lineRange ls first astLast)} spec={showNats (specRange first stmtEnd)} D={d}"
     | _, _, _, _ => "bad-op"
   | ["X", ls, first, stmtEnd, adds, flags] =>
@@ -146,7 +145,7 @@ def handle (line : String) : String :=
     | some ls, some first, some stmtEnd, some adds, [a, b, c, e] =>
       let fc : FixCase := { lines := ls, first := first, stmtEnd := stmtEnd, adds := adds,
                             sharesLine := a == '1', soleInBlock := b == '1', isElif := c == '1', pctRisky := e == '1' }
-      let d := classes [(D16_stmtRange ls first stmtEnd, "stmtRange"), (D16_sharedLine fc, "sharedLine"),
+      let d := classes [(D16_stmtRangeOverrun ls first stmtEnd, "stmtRangeOverrun"), (D16_sharedLine fc, "sharedLine"),
                         (D16_emptyBlock fc, "emptyBlock"), (D16_elifHeader fc, "elifHeader"),
                         (D16_fstringConversion fc, "fstringConversion")]
       s!"D={d}"
